@@ -31,6 +31,8 @@ def run(chk):
     d3_names(chk, repo)
     d4_inverse_mesh(chk, repo)
     d5_metadata(chk, repo)
+    cm.no_dtype_narrowing(chk, repo, "C11", "C11.D5", ["field.Field._fftn"],
+                          "Fourier coefficients are complex - a real dtype would drop the imaginary parts")
     chk.trust("scipy.fft: fftn/ifftn/rfftn/irfftn compute the (inverse) DFT over the given axes; fftfreq(n, d) / rfftfreq(n, d) are "
               "the sample frequencies k/(n d), uniformly spaced by 1/(n d); fftshift/ifftshift move the zero frequency to/from "
               "the centre and are mutually inverse")
